@@ -202,6 +202,7 @@ class Evaluator:
         self.fundamental: List[Dim] = []
         self.dims: Dict[FrozenSet[Tuple[int, int]], Dim] = {}
         self.dim_by_name: Dict[str, Dim] = {}
+        self.dim_renames: List[Tuple[Dim, str, Any, str]] = []   # a named dimension derived again under another name
         self.prefixes: Dict[Tuple[int, Fraction], Pfx] = {}
         self.prefix_by_name: Dict[str, Pfx] = {}
         self.prefix_by_symbol: Dict[str, Pfx] = {}
@@ -1092,6 +1093,8 @@ class Evaluator:
                 d = arg(0, "dimension")
                 if isinstance(d, Dim):
                     nm, sy = arg(1, "name"), arg(2, "symbol")
+                    if d.name and d.name != nm:
+                        self.dim_renames.append((d, d.name, nm, self._cur_where))
                     d.name = nm
                     d.symbol = sy or (d.symbol if d.symbol else None)
                     self.dim_by_name[nm] = d
